@@ -309,6 +309,28 @@ func (m *Machine) floatBinop(op token.Token, x, y value) value {
 	if m.mode == ModeReal {
 		xf, xc := concFloat(x)
 		yf, yc := concFloat(y)
+		// ±Inf/NaN constants against a finite symbolic value fold by IEEE rule
+		// where the result does not depend on the symbolic operand's sign.
+		if xc && math.IsNaN(xf) {
+			return x
+		}
+		if yc && math.IsNaN(yf) {
+			return y
+		}
+		if op == token.ADD || op == token.SUB {
+			if xc && math.IsInf(xf, 0) {
+				return x
+			}
+			if yc && math.IsInf(yf, 0) {
+				if op == token.SUB {
+					yf = -yf
+				}
+				if bits == 32 {
+					return float32(yf)
+				}
+				return yf
+			}
+		}
 		switch op {
 		case token.ADD:
 			if xc && xf == 0 {
